@@ -1,12 +1,13 @@
 /-
 Line-protocol driver of the C14 model (`Model/ServerAuth`).
 
-  cfg <admin:-|x<hex>> <primary:x<hex>> <maxDbs>          → ok
+  cfg <admin:-|S> <primary:S> <maxDbs>                    → ok
   req <VERB> <target> <auth> <ct> <accept> <body…>        → one canonical response line
-        target : / | db:x<hex> | badutf8 | unrouted
-        auth   : - | x<hex of the raw Authorization header bytes>
+        target : / | db:S | dbp:S | badutf8:S | unrouted:S   (the last two carry the raw path for the harness)
+        auth   : - | S (the raw Authorization header bytes)
         ct, accept : cbor | json | -
-        body   : malformed | rpc x<method> <name:-|x<hex>> <apikey:-|x<hex>> <fresh:x<hex>>
+        body   : malformed | rpc <method:S> <name:-|S> <apikey:-|S> <fresh:S> <pvar>
+        S      : x<hex of UTF-8 bytes> | =<literal, `~` for a space>
   restart                                                  → ok dbs=<sorted open databases>
   tables                                                   → the generated parse tables with their labels
   state                                                    → bound / opened / registry (debugging)
@@ -32,10 +33,11 @@ def unhexBytes : List Char → Option (List Nat)
     let r ← unhexBytes rest
     pure ((x * 16 + y) :: r)
 
-/-- `x<hex>` → bytes -/
+/-- `x<hex>` → bytes; `=<literal>` → the literal's bytes with `~` read as a space -/
 def xbytes? (t : String) : Option (List Nat) :=
   match t.toList with
   | 'x' :: cs => unhexBytes cs
+  | '=' :: cs => some ((String.ofList (cs.map fun c => if c = '~' then ' ' else c)).toUTF8.toList.map (·.toNat))
   | _ => none
 
 /-- `x<hex>` → string (the harness only sends UTF-8 it produced from a `String`) -/
@@ -114,14 +116,15 @@ def verb? (t : String) : Verb :=
 
 def target? (t : String) : Option Target :=
   if t = "/" then some .root
-  else if t = "badutf8" then some .badUtf8
-  else if t = "unrouted" then some .unrouted
+  else if t.startsWith "badutf8" then some .badUtf8
+  else if t.startsWith "unrouted" then some .unrouted
   else if t.startsWith "db:" then (xstr? (t.drop 3).toString).map .db
+  else if t.startsWith "dbp:" then (xstr? (t.drop 4).toString).map .db
   else none
 
 def body? : List String → Option (Body × String)
   | ["malformed"] => some (.malformed, "")
-  | ["rpc", m, n, k, f] => do
+  | ["rpc", m, n, k, f, _pvar] => do
     let m ← xstr? m
     let n ← optX? n
     let k ← optX? k
